@@ -14,7 +14,7 @@ T = {
  ("C05","a"): ("neutralised_by_fix","-","-","caught by C05 on the tree it was written against, after the recovery oracle was strengthened (append as the first operation after the restart, the differential repeated after it, both query orders) - which also exposed the genuine defect repaired by 12eecb2. Fix 833d7be (an append never re-creates a lost cache member: without a full sidecar the family is dropped) then made the store robust against this change: the missing sidecar is no longer rebuilt before the append, but the append no longer starts a partial family either. C05 and C04 hold under it"),
  ("C05","b"): ("neutralised_by_fix","-","-","narrowing of the open-time lag check (same patch as C04-2a). Since fix 12eecb2 a crash inside the cache updates leaves a marker and the whole family is dropped at open, so under this change every crash point still recovers correctly: C05 holds. The state its demonstration builds by hand is no longer reachable by a crash. The cache-fault path of the same change is a C04 violation and is caught there"),
  ("C06","a"): ("caught_after_strengthening","C06","C06:order_or_identity:TaskTwoEmitters / C06:lost_frame:TaskTwoEmitters","missed: needs two emitters of one task; a harness with two emitters (stdout / stderr readers) and one subscriber was added (910 executions, <=2 preemptions)"),
- ("C06","b"): ("not_covered","-","-","needs EventLog::append to FAIL (disk full) while the frame is still published. I/O errors are outside the alphabet of every check here (crashes are the only environment fault modelled); DESIGN.md section 5 says so. Not detected"),
+ ("C06","b"): ("caught_after_strengthening","C06","C06:late_subscriber_differs_after_log_failure:SessionLogFailure","missed at first: needs EventLog::append to FAIL while the frame is still published, and no check had an I/O error in its alphabet. A fault-injection seam was added to the log append (hook, cfg-guarded) and C06 got two kinds in which the producer's second append fails: a subscriber attached before production and a late one must receive the same frames, under all interleavings"),
  ("C07","a"): ("caught_after_strengthening","C07","C07:run_ended_count:provider_script","missed: panic on a provider error body whose 1024th byte is inside a character. Error bodies were a fixed short string; the alphabet now has empty / 70 KiB / multi-byte bodies shifted by 0..3 bytes (no cut offset is a boundary in all of them)"),
  ("C07","b"): ("other_property","C11","C11:side_effect_order:WriteA+WriteB","workspace lock released before the tool's frames are published: every run still has a well-formed lifecycle (C07 holds); what breaks is the cross-run order of side-effect frames, which is C11. Caught by C11 as built"),
  ("C08","a"): ("caught_as_built","C08","C08:reference:message_count",""),
